@@ -285,6 +285,7 @@ def run_case(case):
             log = []
             last_fm = {}
             compared = 0
+            broken_fix = set()      # frames whose last solve was a failed fix_stress (known finding): partial write-back
             for i, op in enumerate(ops):
                 before = {t: snapshot(solver, t) for t in range(nfr)}
                 exc = apply_op(solver, op)
@@ -317,8 +318,19 @@ def run_case(case):
                         if d:
                             mon.fail("build-changed-report", "building a matrix does not change what is reported", frame=t,
                                      op=op["op"], diff=str(d[0])[:160])
+                if op["op"] == "S":
+                    if ok:
+                        broken_fix.discard(op["t"])
+                    elif op["method"] == "fix_stress" and isinstance(exc, (ValueError, IndexError)):
+                        broken_fix.add(op["t"])
                 for t in touched:
+                    n_before = len(mon.fails)
                     structure_check(mon, solver, t, last_fm.get(t))
+                    if t in broken_fix:
+                        # the broken fix_stress branch (known finding F-FIXSTRESS) writes part of its result before it fails
+                        for f_ in mon.fails[n_before:]:
+                            f_["detail"]["original_mech"] = f_["mech"]
+                            f_["mech"] = "F-FIXSTRESS"
                 # touched frame vs a fresh object with the minimal replay
                 if op["op"] in ("S", "PS") and ok:
                     t = op["t"]
